@@ -16,8 +16,9 @@ NewGang allocates a private, un-Initialized info; the cache map `gangGroupInfoMa
 sorted gang-group list, i.e. util.GetGangGroupId) holds the shared, Initialized ones.
 Not modelled (irrelevant to the property, not observed): WaitTime, CreateTime, TotalChildrenNum,
 NetworkTopologySpec, WaitingGangIDs, RepresentativePodKey, BindingMemberPods, metrics, auditor.
-The cache's handle is a non-nil ExtendedHandle whose Scheduler() is nil (no queue activation);
-CoschedulingArgs.DefaultMatchPolicy = once-satisfied (the defaulted configuration).
+The cache's handle is a non-nil ExtendedHandle whose Scheduler() is nil (no queue activation).
+CoschedulingArgs.DefaultMatchPolicy is part of the state (`State.dflt`, fixed at construction: `initWith`); `init` is the
+defaulted configuration once-satisfied.
 
 Environment (k8s scheduling framework contract, implemented by the harness' fake handle):
 `fw` is the framework's waiting-pod map (pod ↦ its gang id).  A pod whose Permit answers Wait is
@@ -59,7 +60,9 @@ deriving Repr, DecidableEq
 
 def PodSets.empty : PodSets := { children := [], pending := [], waiting := [], bound := [] }
 
-/-- gang.go Gang. policy: 0 only-waiting, 1 waiting-and-running, 2 once-satisfied. -/
+/-- gang.go Gang. policy: 0 only-waiting, 1 waiting-and-running, 2 once-satisfied; 3 = the empty string, ≥ 4 = any other
+    string — both only as the stored copy of a CoschedulingArgs.DefaultMatchPolicy that is not one of the three
+    (isGangValidForPermit: the `default:` branch of its switch; Unreserve / AfterPostFilter: not `== once-satisfied`). -/
 structure Gang where
   id       : GangId
   init     : Bool        -- HasGangInit
@@ -78,12 +81,21 @@ structure State where
   ggMap : List (List GangId × Nat)   -- GangCache.gangGroupInfoMap
   next  : Nat                        -- allocation counter
   fw    : List (Pod × GangId)        -- framework waiting pods (environment)
+  dflt  : Nat := 2                   -- GangCache.pluginArgs.DefaultMatchPolicy (policy token as for Gang.policy)
 deriving Repr, DecidableEq
 
 def init : State := { gangs := [], infos := [], ggMap := [], next := 0, fw := [] }
 
+/-- NewGangCache(args, …) with args.DefaultMatchPolicy = `d` (0 only-waiting, 1 waiting-and-running, 2 once-satisfied,
+    3 the empty string: v1 defaulting only replaces a nil pointer, and nothing validates the value) -/
+def initWith (d : Nat) : State := { init with dflt := d }
+
 /-- gang parameters carried by a PodGroup object or by a pod's annotations (raw tokens).
-    policy: 0/1/2 as above, 3 = absent, 4 = illegal;  mode: 0 NonStrict, 1 Strict, 2 absent, 3 illegal;
+    policy (annotation gang.scheduling.koordinator.sh/match-policy) and palias (the alias annotation
+    pod-group.scheduling.sigs.k8s.io/match-policy): 0/1/2 as above, 3 = absent, 4 = any other string, 5 = present
+    with the empty string;
+    mode: 0 `NonStrict`, 1 `Strict` (both spelled exactly), 2 absent, 3 any other string, 4 present with the empty string,
+    5 `Strict` in another letter case (strict, STRICT, …), 6 `NonStrict` in another letter case;
     gshape: the shape of the groups annotation — 0 absent, 1 the empty string, 2 `null`, 3 `[]`,
     4 a JSON list of gang ids (`group`), 5 not JSON;  group: the ids of shape 4. -/
 structure Cfg where
@@ -92,6 +104,7 @@ structure Cfg where
   mode   : Nat
   group  : List GangId
   gshape : Nat := 4
+  palias : Nat := 3
 deriving Repr, DecidableEq
 
 /-- util.StringToGangGroupSlice (`none` = the Go nil slice): "" -> nil; `null` unmarshals to nil;
@@ -180,12 +193,33 @@ def attachInfo (s : State) (id : GangId) : State :=
     { s1 with gangs := updGang s1.gangs id (fun g =>
         { g with group := key, info := if infoInited s1 g.info then g.info else r.2 }) }
 
-def normPolicy (p : Nat) : Nat := if p ≤ 2 then p else 2
-def normStrict (m : Nat) : Bool := m != 0
+/-- a policy token that reads as the empty string: annotation absent, or present and empty -/
+def polEmpty (t : Nat) : Bool := t == 3 || t == 5
 
-/-- the common part of tryInitByPodConfig / tryInitByPodGroup -/
-def applyCfg (g : Gang) (c : Cfg) (fromAnno : Bool) : Gang :=
-  { g with min := c.min, policy := normPolicy c.policy, strict := normStrict c.mode,
+/-- apis/extension/coscheduling.go GetGangMatchPolicy: the annotation unless it is empty, else the alias annotation
+    (whatever it holds; "" when both are missing — never a default of its own) -/
+def getMatchPolicy (primary aliasTok : Nat) : Nat := if polEmpty primary then aliasTok else primary
+
+/-- tryInitByPodConfig / tryInitByPodGroup:
+    `matchPolicy := extension.GetGangMatchPolicy(obj); if matchPolicy == "" { matchPolicy = args.DefaultMatchPolicy };
+     if matchPolicy is none of the three { matchPolicy = args.DefaultMatchPolicy }; gang.GangMatchPolicy = matchPolicy`
+    (the configured default is stored as written, legal or not) -/
+def resolvePolicy (dflt t : Nat) : Nat :=
+  let t1 := if polEmpty t then dflt else t
+  if t1 ≤ 2 then t1 else dflt
+
+/-- tryInitByPodConfig / tryInitByPodGroup: `mode := annotations[mode]; if mode == "" { mode = Strict };
+    if mode != Strict && mode != NonStrict { mode = Strict }; gang.Mode = mode` — the comparison is exact (case
+    sensitive), so only token 0 survives as NonStrict; result = `gang.Mode == Strict` (the test of Unreserve /
+    AfterPostFilter) -/
+def normStrict (m : Nat) : Bool :=
+  let m1 := if m == 2 || m == 4 then 1 else m
+  let m2 := if m1 != 1 && m1 != 0 then 1 else m1
+  m2 == 1
+
+/-- the common part of tryInitByPodConfig / tryInitByPodGroup (`dflt` = args.DefaultMatchPolicy) -/
+def applyCfg (dflt : Nat) (g : Gang) (c : Cfg) (fromAnno : Bool) : Gang :=
+  { g with min := c.min, policy := resolvePolicy dflt (getMatchPolicy c.policy c.palias), strict := normStrict c.mode,
            group := sortNat (groupOrSelf g.id (parseGroups c.gshape c.group)),
            fromAnno := fromAnno, init := true }
 
@@ -272,7 +306,7 @@ def rejectGroup (s : State) (id : GangId) : State × List Pod :=
 
 /-- onPodGroupAdd / onPodGroupUpdate after the gang lookup -/
 def pgApply (s : State) (id : GangId) (c : Cfg) : State :=
-  attachInfo { s with gangs := updGang s.gangs id (fun g => applyCfg g c false) } id
+  attachInfo { s with gangs := updGang s.gangs id (fun g => applyCfg s.dflt g c false) } id
 
 def pgAdd (s : State) (id : GangId) (c : Cfg) : State := pgApply (ensureGang s id) id c
 
@@ -294,7 +328,7 @@ def podEvt (s : State) (p : Pod) (id : GangId) (hasNode : Bool) (anno : Option (
     | none => s0
     | some (minOK, c) =>
       attachInfo { s0 with gangs := updGang s0.gangs id (fun g =>
-        if g.init = false ∧ minOK = true then applyCfg g c true else g) } id
+        if g.init = false ∧ minOK = true then applyCfg s.dflt g c true else g) } id
   let s2 := { s1 with gangs := updGang s1.gangs id (fun g => g.setChild p hasNode) }
   if hasNode then satGang { s2 with gangs := updGang s2.gangs id (fun g => g.addBound p) } id
   else s2
